@@ -21,22 +21,23 @@ import time
 from . import valcodec
 from .net import Net, BUS
 
-STREAMS = ['net-exhaustive', 'net-random', 'net-revisions', 'net-deadlines', 'net-spy', 'net-corpus']
+STREAMS = ['net-exhaustive', 'net-random', 'net-revisions', 'net-deadlines', 'net-spy', 'net-corpus', 'bytes-net']
 THEOREMS = ['link_refinement', 'link_refinement_framing_laws', 'link_refinement_txdbus_framing',
             'call_stage_invariant', 'call_in_exactly_one_stage', 'queues_hold_only_issued_calls',
             'C11_end_to_end', 'quiescence_reachable', 'C11_completion_always_reachable',
             'agreeing_proxy_accepted', 'issued_from_call_steps', 'result_from_step',
             'timedOut_from_expire_step', 'C11_call_selected_interface_agrees', 'C11_call_through_agreeing_proxy',
             'C11_call_through_introspected_proxy', 'bytes_run_simulated', 'C11_bytes_any_delivery_order_partial',
-            'bytes_nothing_stuck_in_a_receiver',
+            'bytes_nothing_stuck_in_a_receiver', 'bytes_quiescence_reachable', 'bytes_quiescence_reachable_in_class',
+            'C11_bytes_completion_always_reachable_partial', 'getRemoteObject_introspects_iff_unknown_name',
+            'getRemoteObject_built_lists_every_requested', 'getRemoteObject_built_agrees',
             'C11_returns_what_it_returned', 'prefix_model_violates']
 TRUSTED_BASE = [
-    'glue of the byte-level and introspection theorems that NO C11 stream exercises (the driver exposes neither `bstep` '
-    'nor `introspectedProxy`: they need a concrete codec / C15\'s event model, which have their own drivers): '
-    'BNet.flush / busHandle / cliHandleAll / the take-drop wire discipline / BNet.init (Net/Bytes.lean), '
-    'ifaceOfIntro / methodOfIntro and the link hypothesis `ho` (Proofs/Net/Introspected.lean), any WireCodec instance; '
-    'their components are tied elsewhere: Proto.step by C04\'s streams, generate / getInterfaces by C15\'s, '
-    'issue / receive / sendAnswer / check by the message-level streams of this harness (through the induced schedule)',
+    'the introspection theorem\'s glue that no C11 stream exercises: `introspectedProxy`, ifaceOfIntro / methodOfIntro '
+    'and the link hypothesis `ho` (Proofs/Net/Introspected.lean) - generate / getInterfaces are tied by C15\'s streams',
+    'bytes-net: the codec of the byte-level model is a TABLE of the bytes the real peers wrote (message text as the model '
+    'prints it -> raw bytes observed on the pipe), not a Lean model of `_marshal` / `parseMessage` (C03\'s); handshake and '
+    'Hello happen before `breset` (BNet.init starts after them); no big-endian peers and no relay in that stream',
     'harness/net.py: in-memory byte pipes + per-peer DBusMessage._nextSerial swapping (one counter per process)',
     'message-level schedule induced from rawDBusMessageReceived/sendMessage instrumentation of each peer',
     'wire codec, framing, authentication, validators, introspection XML: not re-modelled (C01-C04, C06, C07, C15, '
@@ -253,6 +254,32 @@ def ho(s):
     return '~' if s is None else hs(s)
 
 
+PROPERTIES = 'org.freedesktop.DBus.Properties'      # registered at import: known by NAME in every process
+PEER = 'org.freedesktop.DBus.Peer'                  # implemented by every exported object, known to nobody at start
+
+
+def gen_ifarg(rng, spec, iface_name):
+    """The `interfaces=` argument of getRemoteObject in one of its documented forms (None is the 'introspect' kind of
+    call): one name, one DBusInterface, or a list mixing names the caller's process knows (declared locally first, or
+    org.freedesktop.DBus.Properties), names it does not know (found by introspection) and DBusInterface instances, in
+    any order.  Every requested interface is one the remote object really implements; `iface_name` (the interface of
+    the method to be called) is always among them."""
+    kind = rng.choice(['name', 'name', 'inst'])
+    form = rng.choice(['one', 'many', 'many', 'many'])
+    items = [[kind, iface_name]]
+    if form == 'many':
+        pool = [['name' if rng.random() < 0.6 else 'inst', i['name']] for i in spec['ifaces'] if i['name'] != iface_name]
+        pool += [['name', PROPERTIES], ['name', PEER]]
+        rng.shuffle(pool)
+        items += pool[:rng.choice([0, 1, 1, 2, 3])]
+        if rng.random() < 0.5 and ['name', PROPERTIES] not in items:
+            items.append(['name', PROPERTIES])       # a name every process knows next to whatever else is asked for
+        rng.shuffle(items)
+    user = {i['name'] for i in spec['ifaces']}
+    declare = sorted(nm for k_, nm in items if k_ == 'name' and nm in user and rng.random() < 0.5)
+    return {'form': form, 'items': items, 'declare': declare}
+
+
 # ============================================================================ scenarios
 def gen_scenario(rng, small=False):
     n = 2 if small else rng.choice([2, 2, 3, 3, 4])
@@ -321,7 +348,7 @@ def gen_scenario(rng, small=False):
         if std and rng.random() < 0.6:
             iface, meth = rng.choice(std)
         replace = (not small) and rng.random() < 0.3        # replaceKnownInterfaces=True for introspecting proxies
-        how = rng.choice(['explicit', 'introspect'] if small else ['explicit', 'explicit', 'introspect', 'introspect', 'byname'])
+        how = rng.choice(['explicit', 'introspect'] if small else ['explicit', 'explicit', 'introspect', 'introspect', 'byname', 'byname'])
         wrong = None
         r = rng.random()
         if not small and how == 'explicit' and r < 0.12:
@@ -346,6 +373,12 @@ def gen_scenario(rng, small=False):
         call = {'caller': rng.randrange(n), 'export': ex, 'iface': iface['name'], 'member': meth[0],
                 'how': how, 'wrong': wrong, 'kw': kw, 'bad_args': bad_args, 'order': order, 'replace': replace,
                 'args': [valcodec.to_line(a) for a in args]}
+        if how == 'byname' and rng.random() < 0.8:
+            # every documented form of `interfaces=`; a member that two interfaces share is told apart by `interface=`
+            # (the listing order of the proxy depends on whether it was built locally or by introspection)
+            call['ifarg'] = gen_ifarg(rng, spec, iface['name'])
+            if _dup_member(spec, meth[0]):
+                call['kw'] = kw = iface['name']
         if not small and how == 'introspect' and rng.random() < 0.10:
             # org.freedesktop.DBus.Properties through the proxy object: served by DBusObject's decorated base-class
             # methods (the commonest proxy call in practice)
@@ -374,7 +407,7 @@ def gen_scenario(rng, small=False):
                     call['kw'] = 'org.t.NotListed'
                 elif mode == 'lacking':
                     call['kw'] = rng.choice(others)
-            elif wrong is None and kw is None and r < 0.16:
+            elif wrong is None and call['kw'] is None and r < 0.16:
                 call['kw'] = ''                    # falsy: like no keyword
             if rng.random() < 0.15:
                 call['timeout'] = 30
@@ -517,6 +550,41 @@ def gen_revision_scenario(rng):
             'family': 'revisions'}
 
 
+def bytes_scenario(rng):
+    """An ordinary scenario restricted to what the byte-level model can express: no big-endian peers (one `enc` per
+    message: item (5) of the list next to the `_partial` theorem), no relay (a call issued INSIDE a delivery is written
+    before the read has been handled to its end; the byte-level step issues calls between reads)."""
+    scn = gen_scenario(rng)
+    scn.pop('relay', None)
+    scn['plans'] = [['value' if k_ == 'relay' else k_ for k_ in pl] for pl in scn['plans']]
+    scn['big_endian'] = []
+    scn['family'] = 'bytes'
+    return scn
+
+
+def gen_drain_scenario(rng):
+    """Explicit proxies, every exported method returns a Deferred (so that the canonical draining schedule of the model,
+    which lets every invocation return one, can be performed on the real network), 2-4 calls."""
+    n = rng.choice([2, 3, 3])
+    exports = []
+    for e in range(rng.choice([1, 2])):
+        methods = [['d%d_%d' % (e, k), rng.choice(SIG_POOL), rng.choice(SIG_POOL), rng.random() < 0.3]
+                   for k in range(rng.choice([1, 2, 3]))]
+        exports.append({'client': rng.randrange(n), 'path': '/dr%d' % e,
+                        'ifaces': [{'name': 'org.t.D%d' % e, 'methods': methods}]})
+    calls = []
+    for k in range(rng.choice([2, 3, 4])):
+        ex = rng.randrange(len(exports))
+        i = exports[ex]['ifaces'][0]
+        m = rng.choice(i['methods'])
+        calls.append({'caller': rng.randrange(n), 'export': ex, 'iface': i['name'], 'member': m[0], 'how': 'explicit',
+                      'wrong': None, 'kw': rng.choice([None, i['name']]), 'bad_args': False, 'order': 'decl',
+                      'args': [valcodec.to_line(x) for x in gen_body(rng, m[1])]})
+    plans = [[rng.choice(['defer-value', 'defer-value', 'defer-raise']) for _ in range(4)] for _ in exports]
+    return {'n': n, 'exports': exports, 'calls': calls, 'plans': plans, 'vseed': rng.randrange(10**9),
+            'big_endian': [], 'family': 'drain'}
+
+
 def doc_bound(classes, iname, member):
     """Which function the DOCUMENTED resolution order of DBusObject.executeMethod binds to (interface, member):
     `dbus_<member>` serves every interface unless it is decorated for another one; otherwise the function
@@ -599,11 +667,23 @@ def first_msg_len(buf):
 class Chooser:
     """Replays a prefix of choices, then asks `fresh` (a function options -> (index, nbytes))."""
 
-    def __init__(self, prefix, fresh):
+    def __init__(self, prefix, fresh, coin_rng=None):
         self.prefix = list(prefix)
         self.fresh = fresh
         self.taken = []
         self.counts = []
+        self.coin_rng = coin_rng
+
+    def coin(self, p):
+        """A recorded yes/no choice (replayed from the prefix like every other choice)."""
+        k = len(self.taken)
+        if k < len(self.prefix):
+            idx = 1 if self.prefix[k][0] else 0
+        else:
+            idx = 1 if (self.coin_rng is not None and self.coin_rng.random() < p) else 0
+        self.taken.append([idx, 'coin'])
+        self.counts.append(2)
+        return idx == 1
 
     def pick(self, options):
         k = len(self.taken)
@@ -621,7 +701,11 @@ class Chooser:
 class Run:
     """One execution of a scenario on the real code under one schedule."""
 
-    def __init__(self, scn, chooser, message_granular, catch_all=False, advance=False):
+    def __init__(self, scn, chooser, message_granular, catch_all=False, advance=False, bytes_mode=False,
+                 drain_tail=None):
+        self.bytes_mode = bytes_mode      # model lines drive the BYTE-level model (`bstep`): one line per read
+        self.drain_tail = drain_tail      # probability per step of finishing by the canonical draining schedule
+        self.cum = {}                     # per client: every inv(...) / done(...) effect token so far (byte mode)
         self.scn = scn
         self.chooser = chooser
         self.granular = message_granular
@@ -797,8 +881,10 @@ class Run:
         net.pump()
         del net.log[:]
         # World of the model, taken from the real objects
-        self.lines.append('reset %d %s' % (n, ' '.join('%d' % net.next_serial(i) for i in range(n))))
+        self.lines.append('%s %d %s' % ('breset' if self.bytes_mode else 'reset', n,
+                                        ' '.join('%d' % net.next_serial(i) for i in range(n))))
         self.expect.append('ok')
+        del net.sent_raw[:]
         for ei, spec in enumerate(scn['exports']):
             j = spec['client']
             obj = self.exp_objs[ei]
@@ -1184,7 +1270,38 @@ class Run:
         net = self.net
         from txdbus.interface import DBusInterface
         names = None
-        if call['how'] == 'byname':
+        plan_line = None
+        if call['how'] == 'byname' and call.get('ifarg'):
+            # `interfaces=` in any documented form: introspection iff some requested NAME is not in the caller's
+            # DBusInterface.knownInterfaces (instances never need it)
+            from txdbus.interface import Method
+            ia = call['ifarg']
+            decl = {i['name']: i for i in spec['ifaces']}
+
+            def make(nm, **kw):
+                return DBusInterface(nm, *[Method(m[0], arguments=m[1], returns=m[2]) for m in decl[nm]['methods']], **kw)
+            with net.as_peer(c):
+                for nm in ia.get('declare', []):
+                    if nm not in DBusInterface.knownInterfaces:
+                        make(nm)                     # a local declaration: registers itself in this process
+            known = net.known_of(c)
+            vals, toks = [], []
+            for kind, nm in ia['items']:
+                if kind == 'inst':
+                    with net.as_peer(c):
+                        obj = make(nm, noRegister=True)
+                    vals.append(obj)
+                    toks.append('inst ' + self.ifaces_text([obj]).split(' ', 1)[1])
+                else:
+                    vals.append(nm)
+                    toks.append('name ' + hs(nm))
+            names = vals[0] if ia['form'] == 'one' else vals
+            kn = [known[nm] for kind, nm in ia['items'] if kind == 'name' and nm in known]
+            call['cached'] = all(kind == 'inst' or nm in known for kind, nm in ia['items'])
+            call['requested'] = [nm for _, nm in ia['items']]
+            plan_line = 'getproxy %s %s %s' % (self.ifaces_text(kn), 'one' if ia['form'] == 'one' else 'many %d' % len(vals),
+                                               ' '.join(toks))
+        elif call['how'] == 'byname':
             # interfaces given by NAME: introspection unless every name is in DBusInterface.knownInterfaces
             # (filled by an earlier introspection in this scenario)
             names = [call['iface']]
@@ -1212,6 +1329,15 @@ class Run:
         d.addCallbacks(ok, bad)
         sends = [e for e in net.log if e[0] == 'send']
         del net.log[:]
+        if plan_line is not None:
+            # the decision itself, against the model's getRemoteObjectPlan (Net/GetProxy.lean)
+            self.lines.append(plan_line)
+            if 'proxy' in call and not sends:
+                self.expect.append(' '.join(['built'] + [hs(i.name) for i in call['proxy'].interfaces]))
+            elif len(sends) == 1 and 'proxy' not in call:
+                self.expect.append(' '.join(['introspect'] + [hs(nm) for nm in call['requested']]))
+            else:
+                self.expect.append('neither: %d messages sent, proxy=%s' % (len(sends), 'proxy' in call))
         if call.get('cached'):
             # no message: the proxy was built from the cached definitions
             if sends or 'proxy' not in call:
@@ -1420,8 +1546,13 @@ class Run:
             if guard > 5000:
                 self.problems.append(('no-quiescence', 'the network did not become quiet within 5000 steps', None, None))
                 break
+            if (self.drain_tail and not any(a[0] in ('call', 'getproxy') for a in self.actions) and not self.waiting
+                    and self.chooser.coin(self.drain_tail)):
+                self.do_drain()
+                break
             idx, nb = self.chooser.pick(opts)
             o = opts[idx]
+            mark = len(self.lines)
             if o[0] == 'advance':
                 self.do_advance()
             elif o[0] == 'app':
@@ -1438,12 +1569,152 @@ class Run:
                 pipe = self.net.links[i].c2b if direction == 'c2b' else self.net.links[i].b2c
                 if self.granular or nb is None:
                     nb = first_msg_len(pipe.buf) or len(pipe.buf)
-                self.net.deliver(i, direction, nb)
+                nb = self.net.deliver(i, direction, nb)
                 entries = self.absorb(('deliver', i, direction))
                 self.track(entries)
+                if self.bytes_mode:
+                    self.fold_read(mark, i, direction, nb)
+            if self.bytes_mode:
+                if o[0] != 'deliver':
+                    for ln_, e_ in zip(self.lines[mark:], self.expect[mark:]):
+                        w_ = ln_.split(' ')
+                        if w_[0] in ('call', 'resolve', 'expire'):
+                            self.accumulate(int(w_[1]), e_)
+                self.codec_lines(mark)
         self.lines.append('quiescent')
         self.expect.append('yes')
+        if self.bytes_mode:
+            for c in range(self.scn['n']):
+                self.lines.append('logs %d' % c)
+                self.expect.append(' '.join(self.cum.get(c, {}).get('inv', []) + self.cum.get(c, {}).get('done', [])))
         self.oracle()
+
+    # -------------------------------------------------------------- byte-level model lines
+    def codec_lines(self, mark):
+        """Everything written since the last call goes into the model's codec table (text of the message as the
+        model prints it -> the bytes the real peer wrote), BEFORE the lines of the action that wrote it."""
+        new = []
+        for who, summary, raw in self.net.sent_raw:
+            if summary.get('t') == 'unparsable':
+                continue
+            new.append('codec %s %s' % (self.show_msg(summary), bytes(raw).hex()))
+        del self.net.sent_raw[:]
+        self.lines[mark:mark] = new
+        self.expect[mark:mark] = ['ok'] * len(new)
+
+    def accumulate(self, c, expected):
+        d = self.cum.setdefault(c, {'inv': [], 'done': []})
+        for t in expected.split(' '):
+            if t.startswith('inv('):
+                d['inv'].append(t)
+            elif t.startswith('done('):
+                d['done'].append(t)
+
+    def fold_read(self, mark, i, direction, nb):
+        """The message-level lines `absorb` produced for one delivery become ONE byte-level read:
+        `readBus i nb` / `readClient i nb beh ; beh …`, expected = number of messages completed, bytes left on the
+        wire, and the effects of the whole read in the model's order (inv* exec* sent* done*; fwd* drop*)."""
+        lines, expect = self.lines[mark:], self.expect[mark:]
+        del self.lines[mark:]
+        del self.expect[mark:]
+        head_l, head_e, behs, outs, odd = [], [], [], [], []
+        for ln, ex in zip(lines, expect):
+            if ln.startswith('unenc '):
+                head_l.append(ln)
+                head_e.append(ex)
+            elif ln.startswith('toBus '):
+                outs.append(ex)
+            elif ln.startswith('toClient '):
+                behs.append(ln.split(' ', 2)[2])
+                outs.append(ex)
+            else:
+                odd.append((ln, ex))
+        self.lines += head_l
+        self.expect += head_e
+        pipe = self.net.links[i].c2b if direction == 'c2b' else self.net.links[i].b2c
+        left = len(pipe.buf)
+        if direction == 'c2b':
+            self.lines.append('readBus %d %d' % (i, nb))
+            fwd = [o for o in outs if o.startswith('fwd ')]
+            drp = [o for o in outs if o.startswith('drop ')]
+            rest = [o for o in outs if not (o.startswith('fwd ') or o.startswith('drop '))]
+            self.expect.append(' '.join(['read %d wire=%d' % (len(outs), left)] + fwd + drp + rest))
+        else:
+            self.lines.append(' '.join(['readClient %d %d' % (i, nb)] + [' ; '.join(behs)]).strip())
+            buckets = {'inv(': [], 'exec(': [], 'sent(': [], 'done(': [], '?': []}
+            for o in outs:
+                toks = o.split(' ')
+                if toks[:1] == ['recv']:
+                    toks = toks[2:]
+                for t in toks:
+                    for k_ in ('inv(', 'exec(', 'sent(', 'done('):
+                        if t.startswith(k_):
+                            buckets[k_].append(t)
+                            break
+                    else:
+                        buckets['?'].append(t)
+                self.accumulate(i, o)
+            self.expect.append(' '.join(['read %d wire=%d' % (len(outs), left)] + buckets['inv('] + buckets['exec('] +
+                                        buckets['sent('] + buckets['done('] + buckets['?']))
+        for ln, ex in odd:
+            self.lines.append(ln)
+            self.expect.append(ex)
+
+    def do_drain(self):
+        """Finish the run by the canonical draining schedule of the model (`drain`, Net/Bytes.lean), performed here on
+        the REAL network: lowest client index first - the bus reads everything that client wrote, else the client
+        reads everything written to it, else its oldest Deferred fires with its planned result.  (Only used for
+        scenarios whose exported methods all return Deferreds: `drain` lets every invocation return one.)  The model
+        gets one `drain` line; what it did is compared step by step (`B<c>:<k>`, …) and through the final `logs`."""
+        net = self.net
+        steps = []
+        fire = []
+        guard = 0
+        while guard < 2000:
+            guard += 1
+            for j in range(len(net.links)):
+                ln = net.links[j]
+                if ln.dead:
+                    continue
+                pending = sorted(a[2] for a in self.actions if a[0] == 'resolve' and a[1] == j)
+                mark = len(self.lines)
+                if ln.c2b.buf:
+                    k = net.deliver(j, 'c2b', len(ln.c2b.buf))
+                    steps.append('B%d:%d' % (j, k))
+                    self.track(self.absorb(('deliver', j, 'c2b')))
+                elif ln.b2c.buf:
+                    k = net.deliver(j, 'b2c', len(ln.b2c.buf))
+                    steps.append('C%d:%d' % (j, k))
+                    self.track(self.absorb(('deliver', j, 'b2c')))
+                elif pending:
+                    t = pending[0]
+                    self.actions.remove(('resolve', j, t))
+                    self.do_resolve(j, t)
+                    steps.append('R%d:%d' % (j, t))
+                else:
+                    continue
+                # the message-level lines of this step are not sent to the model: `drain` does the step itself
+                for ln_, ex in zip(self.lines[mark:], self.expect[mark:]):
+                    if ln_.startswith('unenc '):
+                        fire.append((ln_, ex))
+                    elif ln_.startswith('resolve '):
+                        fire.append(('fire ' + ln_.split(' ', 1)[1], 'ok'))
+                        self.accumulate(j, ex)
+                    else:
+                        self.accumulate(j, ex)
+                del self.lines[mark:]
+                del self.expect[mark:]
+                break
+            else:
+                break
+        mark = len(self.lines)
+        for ln_, ex in fire:
+            self.lines.append(ln_)
+            self.expect.append(ex)
+        self.drained = True
+        self.lines.append('drain %d' % (len(steps) + 5))
+        self.expect.append(' '.join(['drained'] + steps + ['q=yes']))
+        self.codec_lines(mark)
 
     # -------------------------------------------------------------- oracle (implementation only)
     def track(self, entries):
@@ -1501,7 +1772,16 @@ class Run:
                               observed=call.get('issue'), expected='AttributeError')
                 continue
             if not call.get('sent'):
-                if (not call['wrong'] and not call['bad_args']
+                if (not call['wrong'] and not call['bad_args'] and call.get('requested')
+                        and call.get('issue') in ('attributeError', 'typeError', 'encodeError')):
+                    self.flag('proxy-refuses-declared-method',
+                              'the proxy obtained with interfaces=%r raised/failed locally (%s) for %s.%s: the interface '
+                              'was requested, the remote object implements it, and the arguments fit its declared '
+                              'signature; the proxy lists only %r'
+                              % (call['ifarg']['items'], call['issue'], call['iface'], call['member'],
+                                 [i.name for i in call['proxy'].interfaces]),
+                              observed=call['issue'], expected='the call is sent')
+                elif (not call['wrong'] and not call['bad_args']
                         and call.get('issue') in ('attributeError', 'typeError', 'encodeError')):
                     self.flag('proxy-refuses-declared-method',
                               'the proxy raised/failed locally (%s) for %s.%s, a method of the declared interface '
@@ -1636,7 +1916,7 @@ def exhaustive_runs(scn, limit, deadline=None):
     return runs, complete
 
 
-def random_run(scn, seed, granular=False, catch_all=False, advance=0):
+def random_run(scn, seed, granular=False, catch_all=False, advance=0, bytes_mode=False, drain_tail=None):
     rng = random.Random('sched/%r' % (seed,))
 
     def fresh(opts):
@@ -1655,15 +1935,16 @@ def random_run(scn, seed, granular=False, catch_all=False, advance=0):
         else:
             nb = 10**9
         return idx, nb
-    ch = Chooser([], fresh)
-    r = Run(scn, ch, message_granular=granular, catch_all=catch_all, advance=advance > 0)
+    ch = Chooser([], fresh, coin_rng=rng)
+    r = Run(scn, ch, message_granular=granular, catch_all=catch_all, advance=advance > 0, bytes_mode=bytes_mode,
+            drain_tail=drain_tail)
     r.execute()
     return r
 
 
-def replay_run(scn, choices, granular, advance=False):
+def replay_run(scn, choices, granular, advance=False, bytes_mode=False, drain_tail=None):
     ch = Chooser(choices, lambda opts: (0, None))
-    r = Run(scn, ch, message_granular=granular, advance=advance)
+    r = Run(scn, ch, message_granular=granular, advance=advance, bytes_mode=bytes_mode, drain_tail=drain_tail)
     r.execute()
     return r
 
@@ -1677,6 +1958,11 @@ def report(ctx, stream, runs):
     pos = 0
     for r in runs:
         inp = {'scenario': r.scn, 'choices': r.chooser.taken, 'granular': r.granular, 'advance': r.advance}
+        if r.bytes_mode:
+            inp['bytes_mode'] = True
+            inp['drain_tail'] = r.drain_tail
+            ctx.stat('byte-level-run=' + ('drain-tail' if r.drain_tail else 'to-the-end'))
+            ctx.stat('drained-by-canonical-schedule=%s' % getattr(r, 'drained', False))
         ctx.case(stream, sample={'scenario': r.scn, 'schedule': ''.join(r.steps)}, nontrivial=r.invoked > 0)
         ctx.impl_trace()
         ctx.stat('clients=%d' % r.scn['n'])
@@ -1687,6 +1973,12 @@ def report(ctx, stream, runs):
         ctx.stat('big-endian-peers=%d' % len(r.scn.get('big_endian', [])))
         for c in r.calls:
             ctx.stat('proxy=' + c['how'] + ('-wrong' if c['wrong'] else '') + ('-reused' if c.get('reuse') is not None else ''))
+            if c.get('ifarg'):
+                ia = c['ifarg']
+                kinds = ''.join('I' if k_ == 'inst' else ('K' if nm in ia.get('declare', []) or nm == PROPERTIES else 'U')
+                                for k_, nm in ia['items'])
+                ctx.stat('interfaces=%s:%s' % (ia['form'], kinds if len(kinds) <= 3 else kinds[:3] + '+'))
+                ctx.stat('getproxy=' + ('built-locally' if c.get('cached') else 'introspected'))
             if c.get('dest_name'):
                 ctx.stat('destination=well-known-name')
             if c.get('timeout'):
@@ -1716,7 +2008,8 @@ def run(ctx):
     runs = []
     for name, case in ctx.corpus():
         inp = case.get('input', case)
-        runs.append(replay_run(inp['scenario'], inp.get('choices', []), inp.get('granular', True), inp.get('advance', False)))
+        runs.append(replay_run(inp['scenario'], inp.get('choices', []), inp.get('granular', True), inp.get('advance', False),
+                               bytes_mode=inp.get('bytes_mode', False), drain_tail=inp.get('drain_tail')))
     if runs:
         report(ctx, 'net-corpus', runs)
     else:
@@ -1759,6 +2052,18 @@ def run(ctx):
         scn = gen_deadline_scenario(rng) if k % 3 else gen_scenario(rng)
         batch.append(random_run(scn, (ctx.seed, 'dl', k, rng.random()), advance=2))
     report(ctx, 'net-deadlines', batch)
+    # ---- the BYTE-level model (`brun`: bstep, flush, busHandle, cliHandleAll, BNet.init, drain, pick) against the real
+    # network: every delivery is one `readBus` / `readClient` with the real number of bytes, the codec is the table of
+    # the bytes the real peers wrote; a third of the runs end by the canonical draining schedule
+    batch = []
+    for k in range(ctx.scale(quick=70, thorough=700)):
+        if k % 3 == 2:
+            scn = gen_drain_scenario(rng)
+            batch.append(random_run(scn, (ctx.seed, 'drain', k, rng.random()), bytes_mode=True, drain_tail=0.25))
+        else:
+            scn = bytes_scenario(rng)
+            batch.append(random_run(scn, (ctx.seed, 'bytes', k, rng.random()), bytes_mode=True))
+    report(ctx, 'bytes-net', batch)
     # ---- the same with a third party holding a catch-all match rule
     batch = []
     for k in range(ctx.scale(quick=40, thorough=400)):
@@ -1779,5 +2084,6 @@ def replay(ctx, data):
     if inp is None:
         ctx.note('replay file names no input (a theorem/build obligation): nothing to re-run')
         return
-    r = replay_run(inp['scenario'], inp.get('choices', []), inp.get('granular', True), inp.get('advance', False))
+    r = replay_run(inp['scenario'], inp.get('choices', []), inp.get('granular', True), inp.get('advance', False),
+                   bytes_mode=inp.get('bytes_mode', False), drain_tail=inp.get('drain_tail'))
     report(ctx, 'net-corpus', [r])
